@@ -72,9 +72,9 @@ func c02GenLine(r *rng, names []string) string {
 	case 0, 1:
 		return pick(r, []string{"0.0.0.0", "127.0.0.1", "10.0.0.1", "::", "::1", "2001:db8::1", "::ffff:1.2.3.4"}) + " " + d
 	case 2:
-		// names per line: mostly 2..4; 1 line in 8 has MANY (log-scale up to 150: generated names among the scenario's,
+		// names per line: mostly 2..4; 1 line in 8 has MANY (log-scale up to 260, i.e. lines longer than the 4 KiB read buffer: generated names among the scenario's,
 		// so that the name a request asks for may be the 7th, the 40th or the last of its line)
-		n := nCount(r, 2+r.n(3), 8, 5, 150)
+		n := nCount(r, 2+r.n(3), 8, 5, 260)
 		hs := make([]string, n)
 		for i := range hs {
 			hs[i] = pick(r, names)
